@@ -318,13 +318,16 @@ def add_pseudo(tree, rng, vidc):
                 else:
                     cands = props
                 tgt = rng.choice(cands)
-                h = node('hd' if deep else 'hs', maxsid, trans=[trans(vidc(), targets=[tgt['sid']])])
+                # the default transition may carry executable content (executed after the onentry of the history's parent)
+                body = [('raise', vidc(), rng.choice(EVENTS))] if rng.random() < 0.4 else []
+                h = node('hd' if deep else 'hs', maxsid, trans=[trans(vidc(), targets=[tgt['sid']], body=body)])
                 n['kids'].insert(rng.randint(0, len(n['kids'])), h)
             r = rng.random()
             if n['kind'] == 'state' and r < 0.25:
                 maxsid += 1
                 tgt = rng.choice([d for k in props for d in walk(k) if d['kind'] in ('state', 'parallel', 'final')])
-                ini = node('initial', maxsid, trans=[trans(vidc(), targets=[tgt['sid']])])
+                body = [('raise', vidc(), rng.choice(EVENTS))] if rng.random() < 0.4 else []
+                ini = node('initial', maxsid, trans=[trans(vidc(), targets=[tgt['sid']], body=body)])
                 n['kids'].insert(rng.randint(0, len(n['kids'])), ini)
             elif r < 0.45:
                 # initial attribute: a child, or a deeper descendant
